@@ -875,7 +875,7 @@ where
     /// Got to be careful using this, because it throws away the derivatives of the one not chosen
     #[inline]
     fn max(self, other: Self) -> Self {
-        if other > self {
+        if other > self || self.re().is_nan() {
             other
         } else {
             self
@@ -885,7 +885,7 @@ where
     /// Got to be careful using this, because it throws away the derivatives of the one not chosen
     #[inline]
     fn min(self, other: Self) -> Self {
-        if other < self {
+        if other < self || self.re().is_nan() {
             other
         } else {
             self
